@@ -38,6 +38,10 @@ LANES = [(f, s, b, p) for f in FAMS for s in SLOPES for b in BRACKETS for p in P
 ZERO_WIDTH = [('linear', 1.0, (0.3, 0.3), 0.0), ('cubic', 1e3, (-2.0, -2.0), 0.0), ('arctan', 1e-6, (5.0, 5.0), 0.0)]
 
 
+# lanes whose bracket (and root) are 9 - 12 orders of magnitude larger than those of the core lanes
+HUGE_LANES = [('linear', 1.0, (0.0, 4e12), 0.731), ('cubic', 1e-30, (-1e9, 3e9), 0.5), ('arctan', 1.0, (1e10, 2e10), 0.1)]
+
+
 def lane_arrays(lanes):
     fam = np.array([FAMS.index(l[0]) for l in lanes])
     s = np.array([l[1] for l in lanes])
@@ -88,6 +92,7 @@ def cases(tier, seed):
     out.append(('scalar',))
     out.append(('dtypes',))
     out.append(('zero-width',))
+    out.append(('magnitudes',))
     return out
 
 
@@ -107,7 +112,7 @@ def lane_ok(solver, x, lanes, meta):
     f = make_f(lanes)[0]
     inside = (x >= a) & (x <= b)
     if solver == 'bisect':
-        near = np.abs(x - root) <= 1e-8
+        near = np.abs(x - root) <= 1e-8 + 4 * np.finfo(float).eps * np.abs(root)      # (1e-8 in x, or the float spacing at x)
     else:
         with np.errstate(all='ignore'):
             near = (np.abs(x - root) <= 1e-9 * w) | (f(x) == 0)
@@ -200,6 +205,21 @@ def run_case(case):
         r.hit('zero-width')
         r['sample'] = {'composition': 'zero-width bracket at a root', 'lanes': [list(map(str, z)) for z in ZERO_WIDTH]}
         return r
+    if kind == 'magnitudes':
+        # lanes of very different magnitude in one call: every lane keeps ITS OWN tolerance (1e-9 of its own bracket width)
+        core = core_lanes()
+        for big in HUGE_LANES:
+            for solver in ('bisect', 'chandrupatla'):
+                check(solver, [big], lambda i: 'huge lane alone')
+                for k, lane in enumerate(core):
+                    check(solver, [big, lane], lambda i: f'huge lane first, core lane {k} second')
+                    check(solver, [lane, big], lambda i: f'core lane {k} first, huge lane second')
+                    r.state((solver, 'magnitudes', big, k))
+                check(solver, [big] + core + [big], lambda i: 'huge lanes around the 60-lane core')
+        r.nontriv(len(HUGE_LANES) * 2 * len(core))
+        r.hit('magnitudes')
+        r['sample'] = {'composition': 'mixed magnitudes', 'huge_lanes': [list(map(str, z)) for z in HUGE_LANES]}
+        return r
     if kind == 'dtypes':
         # brackets handed over as integer or float32 arrays (valid element-wise brackets with integer end points)
         from copulas.optimize import bisect, chandrupatla
@@ -223,6 +243,28 @@ def run_case(case):
                     r.violation(f'C18:{solver}:wrong-root:bracket-dtype', f'{solver}: lane {lanes[i]} with brackets given as '
                                 f'{np.dtype(dt).name} arrays returned {x[i]!r}, root is {root[i]!r}', case=case)
                 r.state((solver, 'dtype', np.dtype(dt).name))
+        # brackets handed over as pandas Series whose index is a permutation of 0..n-1 / offset / strings (positional meaning)
+        import pandas as pd
+        for iname, index in (('permuted', np.argsort((np.arange(len(lanes)) * 7919) % len(lanes), kind='stable')),
+                             ('offset', np.arange(len(lanes)) + 1000), ('strings', [f'k{i}' for i in range(len(lanes))])):
+            for solver, fn in (('bisect', bisect), ('chandrupatla', chandrupatla)):
+                r.tr()
+                r.ev(len(lanes))
+                try:
+                    x = np.asarray(fn(f, pd.Series(a.copy(), index=index), pd.Series(b.copy(), index=index)), float)
+                except Exception as e:
+                    r.violation(f'C18:{solver}:raises:{type(e).__name__}:series-brackets', f'{solver} raised {type(e).__name__}: {e} for '
+                                f'brackets given as Series with a {iname} index', case=case)
+                    continue
+                tol = (1e-8 if solver == 'bisect' else 1e-9 * w)
+                with np.errstate(all='ignore'):
+                    ok = (np.abs(x - root) <= tol) | ((solver == 'chandrupatla') & (f(x) == 0))
+                if x.shape != root.shape or not ok.all():
+                    i = int(np.nonzero(~ok)[0][0]) if x.shape == root.shape else 0
+                    r.violation(f'C18:{solver}:wrong-root:series-brackets', f'{solver}: lane {lanes[i]} with brackets given as Series '
+                                f'with a {iname} index returned {x[i] if x.shape == root.shape else x.shape!r}, root is {root[i]!r}',
+                                case=case)
+                r.state((solver, 'series', iname))
         r.nontriv(6)
         r.hit('dtypes')
         r['sample'] = {'composition': 'bracket dtypes', 'dtypes': ['int64', 'int32', 'float32'], 'lanes': len(lanes)}
@@ -345,5 +387,5 @@ def finish(agg, tier):
     engine.require(agg['hits'].get('solo', 0) == len(LANES), 'solo lanes not exhausted')
     engine.require(agg['hits'].get('pairs', 0) >= 3600, 'pairs not exhausted')
     engine.require(agg['hits'].get('invalid', 0) >= 2000, 'invalid brackets under-explored')
-    for k in ('full', 'tiled', 'scalar', 'dtypes', 'zero-width'):
+    for k in ('full', 'tiled', 'scalar', 'dtypes', 'zero-width', 'magnitudes'):
         engine.require(agg['hits'].get(k, 0) >= 1, f'{k} missing')
